@@ -3,4 +3,5 @@ CONSTANTS
   PEERS = {"p1","p2","p3"}
   CIDS = {"c1","c2","c3"}
   MaxOps = 8
-INVARIANTS E2EInv AllocInv
+  MaxOut = 2
+INVARIANTS E2EInv AllocInv ErrorKept
